@@ -362,6 +362,9 @@ func (s Spec) Expect(b []byte) error {
 			want = append(want, t)
 		}
 		for _, sc := range s.Sys {
+			if sc.Num == -2 {
+				return fmt.Errorf("syscall %q cannot be represented in the %d-bit mask, but the rule was accepted", sc.Text, MaskWords*32)
+			}
 			if sc.Num < 0 {
 				all = true
 				for i := range wantMask {
@@ -484,9 +487,8 @@ func genString(t *rapid.T, label string, o Opts, max int) []byte {
 		s = string(b)
 	}
 	if o.FlagsRoute && !o.Strict {
-		// whitespace at the ends of a flag value may legitimately be trimmed
-		s = strings.TrimSpace(s)
-		if s == "" || strings.ContainsAny(s[:1], "=<>&!") {
+		// leading and trailing blanks are part of the value ("the complete text after the operator")
+		if strings.ContainsAny(s[:1], "=<>&!") {
 			s = "x" + s // after '<', '>', '&' or '!' a leading '=' would read as a different operator
 		}
 	}
@@ -543,6 +545,9 @@ func GenFilter(t *rapid.T, list string, o Opts, haveArch *string) (Filter, strin
 		txt := strconv.FormatUint(uint64(v), 10)
 		if v == 0xffffffff && rapid.Bool().Draw(t, "unsetspelling") {
 			txt = pick(t, "unset", []string{"unset", "-1"})
+		}
+		if v == 0 && !o.Strict && rapid.Bool().Draw(t, "byname") {
+			txt = "root" // user and group 0 are called root on every Linux system
 		}
 		f = flt(name, op, []byte(txt), v, kind)
 	case "strx", "stra", "path":
@@ -728,6 +733,14 @@ func GenSpec(t *rapid.T, o Opts) Spec {
 				continue
 			}
 			s.Sys = append(s.Sys, Sys{Text: n, Num: int64(num)})
+		case k == 9 && rapid.IntRange(0, 3).Draw(t, "sysunrep") == 0:
+			// a syscall number the 2048-bit mask cannot hold: the rule cannot be encoded as asked
+			txt := rapid.OneOf(rapid.SampledFrom([]string{"2048", "2049", "2079", "2080", "4095", "65536", "-1", "-33", "4294967295", "4294967296", "4294967297", "4294969343", "9223372036854775807"}),
+				rapid.Map(rapid.Int64Range(2048, 1<<33), func(v int64) string { return strconv.FormatInt(v, 10) })).Draw(t, "sysunreptext")
+			s.Sys = append(s.Sys, Sys{Text: txt, Num: -2})
+			if s.Invalid == "" {
+				s.Invalid = "syscall number outside the mask"
+			}
 		case k == 4 && i == 0:
 			// "all" stands alone: mixing it with other syscalls has no agreed meaning
 			s.Sys = []Sys{{Text: "all", Num: -1}}
